@@ -22,12 +22,14 @@
 #include "stir/SegmentByView.h"
 #include "stir/SegmentBySinogram.h"
 #include "stir/RelatedViewgrams.h"
+#include "stir/ViewSegmentNumbers.h"
 #include "stir/TrivialDataSymmetriesForViewSegmentNumbers.h"
 #include "stir/recon_buildblock/DataSymmetriesForBins_PET_CartesianGrid.h"
 #include "stir/IO/interfile.h"
 #include "stir/Succeeded.h"
 #include <fstream>
 #include <sstream>
+#include <set>
 #include <cstdio>
 #include <cstdlib>
 #include <unistd.h>
@@ -213,7 +215,10 @@ compare_exam(const ExamInfo& a, const ExamInfo& b, const std::string& where)
              b.get_low_energy_thres(), ",", b.get_high_energy_thres(), ")");
   else
     VF_CHECK(!b.has_energy_information(), where, ": an energy window appeared that was not written");
-  VF_CHECK(a.get_radionuclide().get_name() == b.get_radionuclide().get_name(), where, ": radionuclide '", a.get_radionuclide().get_name(),
+  // an unknown radionuclide is not written; the reader documents a default for it (RadionuclideDB.h:112: empty name ->
+  // ^18^Fluorine for PET), so names are compared only when there was one to store
+  if (!a.get_radionuclide().get_name().empty() && a.get_radionuclide().get_name() != "Unknown")
+    VF_CHECK(a.get_radionuclide().get_name() == b.get_radionuclide().get_name(), where, ": radionuclide '", a.get_radionuclide().get_name(),
            "' read back as '", b.get_radionuclide().get_name(), "'");
   if (a.get_radionuclide().get_half_life(false) > 0)
     VF_CHECK(rel_close(a.get_radionuclide().get_half_life(false), b.get_radionuclide().get_half_life(false), 1e-5), where,
@@ -295,7 +300,7 @@ struct Run
   bool can_second_reader() const { return has_header && !unflushed; }
 
   // ---- reading everything through one path --------------------------------------------------------
-  Result read_all(ProjData& r, int path, std::vector<float>& got, const std::string& after);
+  Result read_all(ProjData& r, int& path, std::vector<float>& got, const std::string& after);
   Result compare_all(int sel, const std::string& after);
   Result check_bytes(const std::string& after);
   Result after_write(const json& op, const std::string& what);
@@ -377,6 +382,10 @@ Run::setup()
     {
       scanner = vg::make_scanner(c["scanner"]);
       pdi = vg::make_pdi(scanner, c["pdi"]);
+      // blocks geometries build their detector map lazily and may refuse the scanner only then
+      // (GeometryBlocksOnCylindrical: "scanner configuration not accepted"): force it here, it is part of construction
+      if (scanner->get_scanner_geometry() != "Cylindrical")
+        (void)pdi->get_phi(Bin(0, 0, 0, 0));
     }
   catch (const std::exception& e)
     {
@@ -409,9 +418,9 @@ Run::setup()
   const ByteOrder bo(L.big_endian ? ByteOrder::big_endian : ByteOrder::little_endian);
 
   auto prefill = [&](std::ostream& o) {
-    const std::string pre(std::size_t(L.offset), char(PRE));
+    const std::string pre(static_cast<std::size_t>(L.offset), static_cast<char>(PRE));
     const std::string zeros(g.n * L.elsize(), '\0');
-    const std::string guard(std::size_t(NGUARD), char(GUARD));
+    const std::string guard(static_cast<std::size_t>(NGUARD), static_cast<char>(GUARD));
     o << pre << zeros << guard;
   };
 
@@ -503,15 +512,15 @@ Run::setup()
 
 // ---- whole-data read back -------------------------------------------------------------------------
 Result
-Run::read_all(ProjData& r, int path, std::vector<float>& got, const std::string& after)
+Run::read_all(ProjData& r, int& path, std::vector<float>& got, const std::string& after)
 {
   const Geo& g = geo();
   got.assign(g.n, std::numeric_limits<float>::quiet_NaN());
-  const std::string where = vf::cat(after, " [read back through ", path_names[path], "]");
   if (path == P_ITER && !dynamic_cast<ProjDataInMemory*>(&r))
     path = P_COPY_TO;
   if (path == P_ITER && iter_pos_to_idx.empty())
     path = P_COPY_TO;
+  const std::string where = vf::cat(after, " [read back through ", path_names[path], "]");
   switch (path)
     {
     case P_BIN:
@@ -544,7 +553,7 @@ Run::read_all(ProjData& r, int path, std::vector<float>& got, const std::string&
               else
                 {
                   // every bin is visited through the related set of its own viewgram (sets overlap; all must agree)
-                  ViewgramIndices basic(v, s, k);
+                  ViewSegmentNumbers basic(v, s, k);
                   symm->find_basic_view_segment_numbers(basic);
                   basic.timing_pos_num() = k;
                   if (!(basic == ViewgramIndices(v, s, k)))
@@ -898,7 +907,7 @@ Run::run_op(const json& op, std::size_t opno)
       return after_write(op, vf::cat(tag, " set_segment by sinogram(seg=", s, ",tof=", k, ")"));
     }
     case W_RELATED: {
-      ViewgramIndices basic(v, s, k);
+      ViewSegmentNumbers basic(v, s, k);
       symm->find_basic_view_segment_numbers(basic);
       basic.timing_pos_num() = k;
       RelatedViewgrams<float> rv = pd->get_empty_related_viewgrams(basic, symm, false, k);
@@ -1118,7 +1127,7 @@ Run::run_op(const json& op, std::size_t opno)
         }
       // R_RELATED
       {
-        ViewgramIndices basic(v, s, k);
+        ViewSegmentNumbers basic(v, s, k);
         symm->find_basic_view_segment_numbers(basic);
         basic.timing_pos_num() = k;
         // N2 (notes; lead L5): the defaulted 4th argument timing_pos=0 overrides the TOF index of the ViewgramIndices
@@ -1365,8 +1374,6 @@ Run::op_oob(const json& op, const std::string& tag)
   }
   if (!reported)
     return Result::fail(what + ": the request was NOT reported as an error (no exception, no Succeeded::no)");
-  if (path == 1 || path >= 7)
-    unflushed = unflushed; // nothing may have been written
   // the data must be unchanged: raw bytes and a full read-back
   C02_TRY(check_bytes(what + " [reported: " + how.substr(0, 60) + "] afterwards"));
   return compare_all(op[7].get<int>(), what + " [reported] afterwards");
@@ -1395,9 +1402,13 @@ compare_info(const ProjDataInfo& a, const ProjDataInfo& b, const std::string& wh
                " expected ", ca->get_min_ring_difference(s), "..", ca->get_max_ring_difference(s));
   // sampling of the first and last bin (6 significant digits in the header)
   const Bin b0(ga.min_seg, ga.min_view, ga.minax(ga.min_seg), ga.min_tang, ga.min_tof), b1(ga.max_seg, ga.max_view, ga.maxax(ga.max_seg), ga.max_tang, ga.max_tof);
+  // (cylindrical geometries only: detector positions of block geometries are rounded to 1e-3 mm,
+  //  DetectorCoordinateMap.cxx:136-139, so their bin coordinates are not a continuous function of the header numbers)
+  if (ca && cb)
   for (const Bin& bb : { b0, b1 })
     {
-      const double sc = std::fabs(a.get_s(b1)) + std::fabs(a.get_t(b1)) + 1.;
+      // lengths in the header carry 6 significant digits: an error of 5e-6 relative to the ring radius / scanner length
+      const double sc = a.get_scanner_ptr()->get_effective_ring_radius() + std::fabs(a.get_t(b0)) + std::fabs(a.get_t(b1)) + 1.;
       VF_CHECK(std::fabs(a.get_s(bb) - b.get_s(bb)) <= 2e-5 * sc && std::fabs(a.get_t(bb) - b.get_t(bb)) <= 2e-5 * sc
                    && std::fabs(a.get_phi(bb) - b.get_phi(bb)) <= 2e-5 && std::fabs(a.get_tantheta(bb) - b.get_tantheta(bb)) <= 2e-5,
                where, ": coordinates (s,t,phi,tantheta) of a corner bin differ: ", a.get_s(bb), ",", a.get_t(bb), ",", a.get_phi(bb), ",",
@@ -1432,7 +1443,8 @@ Run::op_header(const std::string& tag, int sel)
   VF_CHECK(f->get_offset_in_stream() == std::streamoff(L.offset), where, ": offset ", long(f->get_offset_in_stream()), " expected ", L.offset);
   VF_CHECK(rel_close(f->get_scale_factor(), L.scale, 1e-5), where, ": scale factor ", f->get_scale_factor(), " expected ", L.scale);
   std::vector<float> got;
-  C02_TRY(read_all(*rd, sel % N_PATHS, got, where));
+  int path = sel % N_PATHS;
+  C02_TRY(read_all(*rd, path, got, where));
   for (std::size_t i = 0; i < g.n; ++i)
     VF_CHECK(got[i] == ref[i], where, ": values differ at reference index ", i, ": ", got[i], " vs ", ref[i]);
   vf::stats().count("header round trips");
@@ -1460,7 +1472,8 @@ Run::op_write_to_file(const std::string& tag, int sel)
   C02_TRY(compare_info(*pdi, *rd->get_proj_data_info_sptr(), where));
   C02_TRY(compare_exam(*exam, rd->get_exam_info(), where));
   std::vector<float> got;
-  C02_TRY(read_all(*rd, sel % N_PATHS, got, where));
+  int path = sel % N_PATHS;
+  C02_TRY(read_all(*rd, path, got, where));
   for (std::size_t i = 0; i < g.n; ++i)
     VF_CHECK(got[i] == ref[i], where, ": values differ at reference index ", i, ": ", got[i], " vs ", ref[i]);
   vf::stats().count("write_to_file round trips");
@@ -1524,6 +1537,22 @@ check(const json& c)
 }
 
 // ---- generator -------------------------------------------------------------------------------------
+bool
+single_mashed_tof_bin(const json& c)
+{
+  const int mash = c["pdi"]["tof_mash"].get<int>();
+  const int poss = c["scanner"].value("tof_poss", 0);
+  return mash > 0 && poss > 0 && poss / mash == 1;
+}
+
+std::string
+known_signature(const json& c)
+{
+  if (!no_exclude() && single_mashed_tof_bin(c))
+    return "C02:N4:TOF data with a single (fully mashed) TOF bin lose their TOF mashing factor in the header";
+  return "";
+}
+
 json
 gen_exam(Src& s)
 {
@@ -1554,12 +1583,58 @@ gen(Src& s, int size)
   so.max_rings = size < 40 ? 3 : 4;
   so.allow_blocks = true;
   so.allow_predefined = false;
-  c["scanner"] = vg::gen_scanner(s, so);
+  // the shared generator makes a TOF scanner in ~2/9 of the draws; C02 wants TOF in every third case
+  const bool want_tof = s.chance(2, 5);
+  for (int tries = 0; tries < 10; ++tries)
+    {
+      c["scanner"] = vg::gen_scanner(s, so);
+      if ((c["scanner"].value("tof_poss", 0) > 0) == want_tof)
+        break;
+    }
+  // All numbers in an Interfile header carry 6 significant digits (default stream precision; DESIGN.md change log 4),
+  // so scanner lengths are generated with 5 significant digits: what the format can hold.  (Observation N5 in the
+  // notes: a blocks scanner whose crystal spacing needs more digits does not survive the header.)
+  for (const char* key : { "radius", "doi", "ring_spacing", "bin_size", "tilt", "ax_crystal_spacing", "tr_crystal_spacing", "block_gap_ax",
+                           "block_gap_tr", "tof_size", "tof_res" })
+    if (c["scanner"].contains(key))
+      {
+        char buf[64];
+        std::snprintf(buf, sizeof(buf), "%.5g", c["scanner"][key].get<double>());
+        c["scanner"][key] = std::strtod(buf, nullptr);
+      }
+  if (c["scanner"].contains("ax_crystal_spacing"))
+    {
+      c["scanner"]["ring_spacing"] = c["scanner"]["ax_crystal_spacing"];
+      // N5 (notes): a blocks scanner whose crystals fill the block exactly (gap 0) is refused when its own header is
+      // read back (Scanner::check_consistency compares crystal_spacing*n > block_spacing exactly, after both numbers went
+      // through 6-digit text); excluded by construction: gaps of at least 0.01 mm
+      if (!no_exclude())
+        for (const char* key : { "block_gap_ax", "block_gap_tr" })
+          if (c["scanner"][key].get<double>() < 0.01)
+            c["scanner"][key] = 0.01;
+    }
   shared_ptr<Scanner> sc = vg::make_scanner(c["scanner"]);
   vg::PdiOpts po;
   po.allow_arccorr = true;
   po.max_span = 7;
-  c["pdi"] = vg::gen_pdi(s, *sc, po);
+  for (int tries = 0; tries < 6; ++tries)
+    {
+      c["pdi"] = vg::gen_pdi(s, *sc, po);
+      if (!want_tof || !sc->is_tof_ready() || (c["pdi"]["tof_mash"].get<int>() > 0 && !single_mashed_tof_bin(c)))
+        break;
+    }
+  // BlocksOnCylindrical data cannot be described by a header when axially compressed: the header writer asks for
+  // get_phi(), which needs the LOR of the bin, and ProjDataInfoCylindrical::get_ring_pair_for_segment_axial_pos_num
+  // calls error("... does not work for data with axial compression") (ProjDataInfoCylindrical.cxx:343)
+  if (c["scanner"]["geometry"].get<std::string>() != "Cylindrical")
+    {
+      c["pdi"]["span"] = 1;
+      c["pdi"]["max_delta"] = std::min(c["pdi"]["max_delta"].get<int>(), c["scanner"]["rings"].get<int>() - 1);
+    }
+  // N4 (notes): TOF data mashed into a single TOF bin are written with a non-TOF header and come back with
+  // TOF mashing factor 0; excluded by construction (non-TOF data on the TOF scanner instead)
+  if (single_mashed_tof_bin(c) && !no_exclude())
+    c["pdi"]["tof_mash"] = 0;
   // not more than ~3000 bins (DESIGN C02 bounds): fewer tangential positions first, then fewer segments
   for (int guard = 0; guard < 40; ++guard)
     {
@@ -1740,5 +1815,6 @@ the_property()
   p.check = check;
   p.nontrivial = nontrivial;
   p.shrink_lists = { "ops" };
+  p.known_signature = known_signature;
   return p;
 }
